@@ -377,17 +377,25 @@ def r4_break_value(body):
 
 def r5_copied_iter(body):
     """R5: `let mut IT = S.iter().copied();` with uses `IT.next()`  ->
-           `let mut IT = S.iter();` and `match IT.next() { Some(r) => Some(*r), None => None }`"""
+           `let mut IT = S.iter();` and `match IT.next() { Some(r) => Some(*r), None => None }`
+       R5': the same with a trailing `.take(N)` (Copied<I>::take(N) yields the copies of I::take(N)'s items)
+       R5'': the expression `E.iter().copied().next()` (E a place or sub-slice) ->
+           `(match E.iter().next() { Some(r) => Some(*r), None => None })`"""
     log = []
     s = body
-    for m in list(_code_find(s, re.compile(r'let\s+mut\s+([A-Za-z_]\w*)\s*=\s*([^;]+?)\.iter\(\)\.copied\(\)\s*;'))):
+    res = []
+    for m in _code_find(s, re.compile(r'([A-Za-z_][\w\.]*(?:\[[^\[\]]*\])?)\.iter\(\)\.copied\(\)\.next\(\)')):
+        res.append((m.start(), m.end(), '(match %s.iter().next() { Some(__r) => Some(*__r), None => None })' % m.group(1)))
+        log.append("R5'': %s.iter().copied().next()" % norm_ws(m.group(1)))
+    s = _apply(s, res)
+    for m in list(_code_find(s, re.compile(r'let\s+mut\s+([A-Za-z_]\w*)\s*=\s*([^;]+?)\.iter\(\)\.copied\(\)(\.take\([^()]*\))?\s*;'))):
         it = m.group(1)
         src = m.group(2)
-        s2 = s[:m.start()] + 'let mut %s = %s.iter();' % (it, src) + s[m.end():]
+        s2 = s[:m.start()] + 'let mut %s = %s.iter()%s;' % (it, src, m.group(3) or '') + s[m.end():]
         cnt = len(re.findall(r'\b%s\.next\(\)' % re.escape(it), s2))
         s2 = re.sub(r'\b%s\.next\(\)' % re.escape(it),
                     '(match %s.next() { Some(__r) => Some(*__r), None => None })' % it, s2)
-        log.append('R5: %s = %s.iter().copied() (%d next() sites)' % (it, src.strip(), cnt))
+        log.append('R5: %s = %s.iter().copied()%s (%d next() sites)' % (it, src.strip(), m.group(3) or '', cnt))
         return r5_copied_iter_more(s2, log)
     return s, log
 
@@ -578,6 +586,10 @@ SELFTEST = [
     (r5_copied_iter,
      '{ let mut iter = bytes.iter().copied(); raw = iter.next(); }',
      ['let mut iter = bytes.iter();', 'raw = (match iter.next() { Some(__r) => Some(*__r), None => None });']),
+    (r5_copied_iter,
+     '{ let mut iter = bytes.iter().copied().take(N); raw = iter.next(); if e { raw = bytes[index..].iter().copied().next(); } }',
+     ['let mut iter = bytes.iter().take(N);', 'raw = (match iter.next() { Some(__r) => Some(*__r), None => None });',
+      'raw = (match bytes[index..].iter().next() { Some(__r) => Some(*__r), None => None });']),
     (r13_strip_macro_rules,
      '{ let mut i = s; macro_rules! bh_loop_2 { ($block : block) => { loop { $block; i += 1; if i >= e { break; } } }; } macro_rules! bh_curr { () => { c [i] } } loop { f(i); } }',
      ['{ let mut i = s; loop { f(i); } }']),
